@@ -37,12 +37,18 @@ type c07Op struct {
 }
 
 type c07Case struct {
-	Index int       `json:"index"`
-	Cfg   c07Cfg    `json:"cfg"`
-	Mode  string    `json:"mode"` // sync: requests are admitted at scripted points between batches; free: clients race the batch loop
-	Reqs  []*c07Req `json:"requests"`
-	Ops   []c07Op   `json:"ops"`
+	Index int    `json:"index"`
+	Cfg   c07Cfg `json:"cfg"`
+	// SWAShift: generations may overflow the context although the cache has a sliding window
+	// (sub-workload "sliding window + context shift", only for case indices < c07SWAShiftCases)
+	SWAShift bool      `json:"swa_shift_subworkload,omitempty"`
+	Mode     string    `json:"mode"` // sync: requests are admitted at scripted points between batches; free: clients race the batch loop
+	Reqs     []*c07Req `json:"requests"`
+	Ops      []c07Op   `json:"ops"`
 }
+
+// Cases with a windowed cache whose generations may overflow the context: every 8th of the first indices.
+const c07SWAShiftCases = 2048
 
 func c07RandText(r *kit.Rand, letters, n int) string {
 	b := make([]byte, n)
@@ -76,6 +82,7 @@ func c07Gen(r *kit.Rand, idx int) *c07Case {
 	if cfg.Kind == "swa" || cfg.Kind == "wrapper" {
 		cfg.Window = r.Range(2, 10)
 	}
+	cs.SWAShift = cfg.Window > 0 && idx < c07SWAShiftCases && idx%8 == 0
 	letters := cfg.Vocab - 1
 	n := r.Range(3, 10)
 	if r.Chance(1, 7) {
@@ -156,6 +163,20 @@ func c07Gen(r *kit.Rand, idx int) *c07Case {
 			q.CancelAfter = r.Range(1, 3)
 		}
 		e := c07Reference(cfg, q)
+		if e.Eval > 300 {
+			// an unlimited generation that meets no EOS soon (a deterministic model can cycle for ever): bound it
+			q.NumPredict = r.Range(1, cfg.NumCtx+8)
+			e = c07Reference(cfg, q)
+		}
+		if (cfg.Kind == "swa" || cfg.Kind == "wrapper") && !cs.SWAShift {
+			// Sliding window + context shift is the upstream TODO in Causal.Remove (the shifted window
+			// reaches entries that were already evicted). It runs as its own bounded sub-workload
+			// (SWAShift) so that it cannot use up the violation budget of everything else.
+			for e.Shifts > 0 {
+				q.NumPredict = max(1, cfg.NumCtx-e.PromptEval+1)
+				e = c07Reference(cfg, q)
+			}
+		}
 		hist = append(hist, past{q.Prompt, e.Text})
 		cs.Reqs = append(cs.Reqs, q)
 	}
@@ -241,7 +262,8 @@ func c07Fresh(cfg *c07Cfg, q *c07Req, out *c07Outcome) (c07Result, *c07Viol, str
 	}
 	fq := &c07Req{Idx: q.Idx, Prompt: q.Prompt, NumPredict: q.NumPredict, NumKeep: q.NumKeep, Stop: q.Stop}
 	w.start(fq)
-	ok := w.drain([]*c07Req{fq}, 200000)
+	fe := c07Reference(cfg, q)
+	ok := w.drain([]*c07Req{fq}, 2000+4*(fe.PromptEval+fe.Eval))
 	out.absorb(w, "fresh_")
 	if v := w.violation(); v != nil {
 		w.abandon([]*c07Req{fq})
@@ -267,7 +289,10 @@ func c07RunCase(cs *c07Case) *c07Outcome {
 	for i, q := range cs.Reqs {
 		exp[i] = c07Reference(cfg, q)
 	}
-	maxSteps := 400000
+	maxSteps := 2000
+	for _, e := range exp {
+		maxSteps += 4 * (e.PromptEval + e.Eval + 8)
+	}
 	finish := func() *c07Outcome {
 		out.absorb(w, "")
 		out.viol = w.violation()
